@@ -61,6 +61,41 @@ theorem single_perm_equivariant {τ : Type} (row : τ → β) {b₁ b₂ : List 
     ((singleForward row b₁).flatten).Perm ((singleForward row b₂).flatten) := by
   simpa [singleForward] using p.map row
 
+/-- **bottomup_per_frame**: the bottom-up forward + consumer zip is the per-frame map: sample `b`'s
+record carries frame `b`'s indices, is decoded with frame `b`'s `eff_scale`, and is grouped from
+frame `b`'s peaks only. -/
+theorem bottomup_per_frame {γ : Type} (group : List (Peak α V) → β) (decode : E → β → γ)
+    (batch : List (Frame α V ι E)) :
+    bottomupRecords group decode batch
+      = batch.map fun f => (f.fidx, f.vidx, decode f.eff (group f.peaks)) :=
+  bottomupRecords_eq group decode batch
+
+/-- **bottomup_perm_equivariant** -/
+theorem bottomup_perm_equivariant {γ : Type} (group : List (Peak α V) → β) (decode : E → β → γ)
+    {b₁ b₂ : List (Frame α V ι E)} (p : b₁.Perm b₂) :
+    (bottomupRecords group decode b₁).Perm (bottomupRecords group decode b₂) := by
+  simp only [bottomup_per_frame]
+  exact p.map _
+
+theorem bottomup_append {γ : Type} (group : List (Peak α V) → β) (decode : E → β → γ)
+    (b₁ b₂ : List (Frame α V ι E)) :
+    bottomupRecords group decode (b₁ ++ b₂)
+      = bottomupRecords group decode b₁ ++ bottomupRecords group decode b₂ := by
+  simp [bottomup_per_frame]
+
+/-- bottom-up: any batch size gives the same records -/
+theorem bottomup_batchsize_irrelevant {γ : Type} (group : List (Peak α V) → β) (decode : E → β → γ)
+    (B : Nat) (hB : 1 ≤ B) (frames : List (Frame α V ι E)) :
+    predictGen B (bottomupRecords group decode) frames = bottomupRecords group decode frames := by
+  have key : ∀ L : List (List (Frame α V ι E)),
+      L.flatMap (bottomupRecords group decode) = bottomupRecords group decode L.flatten := by
+    intro L
+    induction L with
+    | nil => simp [bottomup_per_frame]
+    | cons b bs ih => rw [List.flatMap_cons, ih, List.flatten_cons, bottomup_append]
+  unfold predictGen
+  rw [key, flatten_chunks B hB]
+
 /-- **indices_carried**: every output group comes from one frame of the batch; each of its rows
 carries that frame's `frame_idx`, `video_idx`, `eff_scale`, and a detection of that frame. -/
 theorem indices_carried (mi : Option Nat) (batch : List (Frame α V ι E)) (g : List (Rec α V ι E))
@@ -180,6 +215,14 @@ theorem topk_keeps_highest [LinearOrder V] (k : Nat) (l : List (Peak α V)) :
   · rw [hsplit]; exact sortDesc_perm l
   · simp [topk, (sortDesc_perm l).length_eq]
   · exact hs'.sublist (List.take_sublist k _)
+
+/-- the bottom-up `max_instances` filter keeps the highest-scoring instances (same statement, for
+`keepTop`); unset: everything is kept -/
+theorem keepTop_keeps_highest [LinearOrder V] (k : Nat) (l : List (Peak α V)) :
+    keepTop (some k) l = topk k l ∧ keepTop none l = l ∧
+      (∀ a ∈ keepTop (some k) l, ∀ b ∈ dropped k l, b.val ≤ a.val) ∧
+      (keepTop (some k) l ++ dropped k l).Perm l :=
+  ⟨rfl, rfl, (topk_keeps_highest k l).1, (topk_keeps_highest k l).2.1⟩
 
 /-! ### non-vacuity / concrete instances -/
 
